@@ -187,6 +187,40 @@ def putCArray (k : Kind) (e : Endian) (t : Ty) (vs : List Nat) : List UInt8 :=
     wrote the pointer value, resp. the N bytes of the buffer): `write(x, strlen(x))` -/
 def putCStr (bs : List UInt8) : List UInt8 := bs.takeWhile (· != 0)
 
+/-! ## raw bytes: counts regenerated from the source -/
+
+/-- the number of bytes `write(p, n)` hands on: `StreamBuffer::write` = `append(data, COUNT)`, `File::write` =
+    `fwrite(p, SIZE, COUNT, _file)`; `Socket::write` loops over `send` until `n` bytes are out (assumption, C10) -/
+def rawWriteCount (k : Kind) (n : Nat) : Nat :=
+  match k with
+  | .sb => sbWriteCount n
+  | .file => fileWriteCount n
+  | .sock => n
+
+/-- the number of bytes `read(n)` / `read(p, n)` returns: `StreamBufferReader::read(n)` = `ByteArray a(COUNT);
+    memcpy(a.data(), _ptr, COUNT)`, `File::read` = `fread(p, SIZE, COUNT, _file)`; `Socket::read` (assumption, C10) -/
+def rawReadCount (k : Kind) (n : Nat) : Nat :=
+  match k with
+  | .sb => sbrReadCount n
+  | .file => fileReadCount n
+  | .sock => n
+
+/-- … and how far the reader moves: `_ptr += ADV` in `StreamBufferReader::read(n)`; a FILE / a socket moves by what it
+    delivered -/
+def rawReadAdv (k : Kind) (n : Nat) : Nat :=
+  match k with
+  | .sb => sbrReadAdv n
+  | .file => fileReadCount n
+  | .sock => n
+
+/-- how far `skip(n)` moves the reader: `_ptr += ADV` (StreamBufferReader), a thrown-away read of `COUNT` bytes
+    (`Socket_::skip`); a File is moved with `seek(n, HERE)` = `fseek` (OS) -/
+def skipAdv (k : Kind) (n : Nat) : Nat :=
+  match k with
+  | .sb => sbrSkipAdv n
+  | .file => n
+  | .sock => sockSkipCount n
+
 /-- one write operation; `setEndian` only changes the stream's byte order -/
 inductive WOp where
   | setEndian (e : Endian)
@@ -203,7 +237,7 @@ def writeOp (k : Kind) (e : Endian) : WOp → Endian × List UInt8
   | .setEndian e' => (e', [])
   | .scalar t v => (e, putScalar k e t (norm t v))
   | .array t vs => (e, putArray k e t (vs.map (norm t)))
-  | .bytes bs => (e, bs)
+  | .bytes bs => (e, bs.take (rawWriteCount k bs.length))
   | .cstr bs => (e, putCStr bs)
   | .carray t vs => (e, putCArray k e t (vs.map (norm t)))
   | .strArray ss => (e, (putStrArray k e ss).getD [])   -- never `none`: `C16.string_array_canonical`
@@ -358,8 +392,8 @@ deriving Repr, DecidableEq
 def readOp (k : Kind) (e : Endian) (bs : List UInt8) : ROp → Endian × List UInt8 × RVal
   | .setEndian e' => (e', bs, .none)
   | .scalar t => let r := getScalar k e t bs; (e, r.2, .val t r.1)
-  | .bytes n => (e, bs.drop n, .bytes (bs.take n))
-  | .skip n => (e, bs.drop n, .none)
+  | .bytes n => (e, bs.drop (rawReadAdv k n), .bytes (bs.take (rawReadCount k n)))
+  | .skip n => (e, bs.drop (skipAdv k n), .none)
   | .array t n => let r := getArray k e t n bs; (e, r.2, .vals t r.1)
 
 /-- a whole read history: final byte order, the values returned, the bytes left -/
